@@ -32,7 +32,7 @@ def register(reg):
   reg.shape('PhaseRecord', outcome=PHASE_OUTCOME, marginal='val{none,bool}', result='opt:ref:PhaseExecutionOutcome',
             name='str', subtest_name='val{none,str}', start_time_millis='int', end_time_millis='val{none,int}',
             measurements='opt:dict[ref:Measurement]', options='opt:ref:PhaseOptions', diagnosers='list',
-            diagnosis_results='list', failure_diagnosis_results='list', attachments='dict')
+            diagnosis_results='own:list', failure_diagnosis_results='own:list', attachments='own:dict')
   reg.shape('SubtestRecord', name='str', outcome=SUBTEST_OUTCOME, start_time_millis='int', end_time_millis='val{none,int}',
             marginal='val{none,bool}')
   reg.shape('Diagnosis', is_failure='bool', is_internal='bool')
